@@ -507,6 +507,9 @@ func run(a vh.Args) {
 					st.Count("verdict_" + codeText[r.badCode])
 					// a durability probe is judged at its read-back only (keeps shrunk replays meaningful)
 					probe := strings.Contains(rest, "probe=")
+					if probe && r.badCode == codeCompletedLost && r.img.term == 0 && len(r.img.log) == 0 {
+						continue // nothing had been acknowledged (shrunk replay)
+					}
 					if kind == "live" && (!probe || r.badWhy != "" || r.badCode == codeCompletedLost) {
 						st.Violation(id, fmt.Sprintf("replica %s: %s (event %d of the replica)", k, r.badText(), r.badPos))
 					}
